@@ -56,7 +56,11 @@ def main(argv=None):
     ap.add_argument('--no-selftest', action='store_true')
     ap.add_argument('-v', '--verbose', action='store_true')
     a = ap.parse_args(argv)
-    props = PROPS if a.prop == 'all' else [a.prop.upper()]
+    if a.prop == 'all':
+        from .claims import CLAIMS
+        props = sorted(CLAIMS)
+    else:
+        props = [a.prop.upper()]
     worst = 0
     for p in props:
         code, chk = run_property(p, a.tier, a.root, a.rule, write=not a.no_write, selftest=not a.no_selftest)
